@@ -137,6 +137,8 @@ func K3() *Entry {
 		F("Span", Dur(), NonNull()), F("SpanMaybe", Dur(), Null()), F("Spans", Dur(), Rep(), NonNull()), F("SpansMaybe", Dur(), Rep()),
 		F("SpanDict", Dur(), MapOf(), NonNull()), F("SpanDictMaybe", Dur(), MapOf()),
 		F("SpanInt", StdDurInt()), F("SpanCast", Sc(ir.Int64), Cast("Duration")), F("SpanCasts", Sc(ir.Int64), Rep(), Cast("Duration")),
+		// the other proto kinds whose Go type is int64
+		F("SpanSigned", Sc(ir.Sint64), Cast("Duration")), F("SpanFixed", Sc(ir.Sfixed64), Cast("Duration")), F("SpanSigneds", Sc(ir.Sint64), Rep(), Cast("Duration")),
 		F("KindAlt", EnumT("Mode"), In(0)), F("AtAlt", TS(), In(0)), F("SpanAlt", Dur(), In(0)),
 	)
 	WithOneofs(m, "Pick")
@@ -493,7 +495,13 @@ func K18() *Entry {
 func K12() *Entry {
 	m := WithOneofs(M("Bare", F("Name"), F("Kind", EnumT("Mode")), F("Sub", MsgT("BareSub")), F("Subs", MsgT("BareSub"), Rep()), F("ByKey", MsgT("BareSub"), MapOf(), NonNull()),
 		F("Left", In(0)), F("Right", MsgT("BareSub"), In(0)), F("When", TS(), Null())), "Side")
-	f := &ir.File{Name: "k12.proto", Package: "", GoPackage: "k12bare", Messages: []*ir.Message{m, M("BareSub", F("Note"), F("Level", Sc(ir.Int32)))}}
+	// a user message called like a well-known type, in a file without a package (its full name is `.Timestamp`)
+	m.Fields = append(m.Fields, F("Stamp", MsgT("Timestamp")), F("Stamps", MsgT("Timestamp"), Rep()))
+	for i, fl := range m.Fields {
+		fl.Number = int32(i + 1)
+	}
+	f := &ir.File{Name: "k12.proto", Package: "", GoPackage: "k12bare", Messages: []*ir.Message{m, M("BareSub", F("Note"), F("Level", Sc(ir.Int32))),
+		M("Timestamp", F("Zone"), F("Epoch", Sc(ir.Int64)))}}
 	f.Enums = []*ir.Enum{modeEnum()}
 	AutoComments(f)
 	// a very long comment line and one with every kind of quote
